@@ -258,6 +258,39 @@ def cache_defects(prog, q: str) -> list[str]:
         vroots = d.of(value, table=table)
         missing = sorted(r for r in vroots
                          if not _covered(r, kroots, class_attrs, selfname))
+        # validated entries: the stored value carries a witness of an input
+        # (`table[k] = (source, result)`) and a hit is only used after the
+        # witness was compared with the current input
+        # (`if stored_source is not source: recompute`)
+        if missing:
+            from_table: set[str] = set()
+            for n in ast.walk(fi.node):
+                if isinstance(n, ast.Assign) and any(
+                        _is_table(x, name, attr_form)
+                        for x in ast.walk(n.value)):
+                    for t in n.targets:
+                        for x in ast.walk(t):
+                            if isinstance(x, ast.Name):
+                                from_table.add(x.id)
+            witnessed = set()
+            for n in ast.walk(fi.node):
+                if isinstance(n, ast.Compare) and len(n.ops) == 1 and \
+                        isinstance(n.ops[0], (ast.Is, ast.IsNot, ast.Eq,
+                                              ast.NotEq)):
+                    sides = [n.left, n.comparators[0]]
+                    txt = [norm(x) for x in sides]
+                    for a, b in ((0, 1), (1, 0)):
+                        if isinstance(sides[a], ast.Name) and \
+                                sides[a].id in from_table and txt[b] in missing:
+                            witnessed.add(txt[b])
+            if witnessed:
+                rest = [m for m in missing if m not in witnessed]
+                if rest:
+                    out.append(
+                        f"[R-CACHE-UNDECIDED] {fi.short}: `{norm(st, 90)}`: "
+                        f"hits are validated against {sorted(witnessed)}, "
+                        f"whether that also fixes {rest} is not decided")
+                missing = []
         if missing:
             out.append(
                 f"[R-CACHE-KEY] {fi.short}: `{norm(st, 90)}` stores a value "
@@ -361,6 +394,10 @@ def report(prog, res, prop: str) -> None:
                    loc)
             continue
         for d in defects:
+            if d.startswith("[R-CACHE-UNDECIDED]"):
+                res.unrecognised("R-CACHE-KEY", f"{q}: validated cache", loc,
+                                 d.split("] ", 1)[1])
+                continue
             rule = "R-CACHE-ALIAS" if d.startswith("[R-CACHE-ALIAS]") \
                 else "R-CACHE-KEY"
             fn = d.split("] ", 1)[1].split(":", 1)[0]
